@@ -99,8 +99,8 @@ def check_sep_fg(hh: List[int], alt: List[int], ep: List[int], e1: List[int], e2
     return _sep(full, alone)
 '''
 
-SEP_CONDS = ["check_sep_eg", "check_sep_sn", "check_sep_bg", "check_sep_wthh", "check_sep_fg"]
-RELABEL_CONDS = ["check_relabel_eg", "check_relabel_sn", "check_relabel_fg"]
+SEP_CONDS = ["check_sep_eg", "check_sep_sn", "check_sep_bg", "check_sep_wthh"]
+RELABEL_CONDS = ["check_relabel_eg", "check_relabel_sn"]
 
 
 def groupings(ck, tier):
@@ -111,8 +111,10 @@ def groupings(ck, tier):
     text = H.render(n, excl) + SEP_TEMPLATE.replace("__NA__", str(na))
     path = xh.write_harness("C02", f"sep_n{n}", text)
     conds = SEP_CONDS + RELABEL_CONDS
-    res = xh.run_all(path, conds + ["check_eg_twin", "check_fg_twin"], timeout, common.JOBS)
-    for t in ("check_eg_twin", "check_fg_twin"):
+    from gsv import fgsym
+    fgsym.run_obligations(ck, "C02", n, excl, with_orders=False, with_relabel=True, sep_na=na, timeout=300)
+    res = xh.run_all(path, conds + ["check_eg_twin"], timeout, common.JOBS)
+    for t in ("check_eg_twin",):
         if res[t][0] != "counterexample":
             raise common.HarnessError(f"C02 reachability twin {t}: {res[t][0]}")
     for cond in conds:
@@ -243,6 +245,9 @@ def replay(path):
         rep = replay_sep(text, d["cond"], cex)
         print(rep)
         return 1 if rep is True else 0
+    if d.get("kind") == "fgsym":
+        from gsv import fgsym
+        return 1 if fgsym.reproduces(d["name"], d["vals"], d["n"], d.get("sep_na")) else 0
     if d.get("kind") == "fg":
         bad, pi = GC.fg_order_dependent(d["w"])
         return 1 if bad else 0
